@@ -1,6 +1,8 @@
 /- C01: soundness of the local check `lbProd` -- generic in the grammar table, the effect table and the signatures.
    Helper lemmas only; the property theorems are in `UtapModel/Props/C01.lean`. -/
 import UtapModel.Model.C01Stack
+set_option linter.unusedSimpArgs false
+set_option linter.unusedVariables false
 namespace UtapModel.C01
 
 /-! ### linear forms -/
